@@ -1,12 +1,14 @@
 (* C09 - Literal <-> Python value mapping is faithful, normalisation is idempotent.
-   Property theorems only; proofs are in Literal/Proofs.v.  PARTIAL: proved for the 13 integer
-   datatypes, boolean and the string family of the model; decimal is modelled and tied to the code by
-   the correspondence run but its laws are not proved; float/double, date/time/duration, binary and
-   XML literals are conformance-only (harness/c09.py).  The full statement is refuted for the code as
-   it is (findings F14, F14b..F14g); see the _refuted theorems and notes/C09.md. *)
+   Property theorems only; proofs are in Literal/{Proofs,Token,Decimal,Tie}.v.
+   Proved for every datatype of the model: the 13 integer datatypes, boolean, decimal, plain / xsd:string /
+   normalizedString / token, python int / bool / Decimal / str values, and pairs of literals (eq).
+   float/double, date/time/duration, binary and XML literals are conformance-only (harness/c09.py).
+   Open finding in the modelled part: F14b (C09_decimal_nan_refuted). *)
 From Coq Require Import List NArith ZArith Bool.
 Import ListNotations.
-From RV Require Import Literal.Model Literal.Proofs.
+From RV Require Import Literal.Model Literal.Token Literal.Proofs Literal.Decimal Literal.Tie.
+
+(* ---------------- integer datatypes ---------------- *)
 
 (* parse (print v) = Some v, and the printed form is in the XSD integer lexical space with value v *)
 Theorem C09_int_roundtrip : forall z, py_int (print_z z) = Some z /\ xsd_int_lex (print_z z) = Some z.
@@ -77,12 +79,22 @@ Theorem C09_unsignedByte_faithful : int_faithful DUnsignedByte.
 Proof. apply int_faithful_all. reflexivity. Qed.
 Print Assumptions C09_unsignedByte_faithful.
 
-(* the code's range checks agree with the XSD value spaces except for xsd:long and xsd:unsignedLong,
-   which it leaves unbounded above (part of F14c) *)
+(* the code's range checks are exactly the XSD value spaces except for xsd:long and xsd:unsignedLong,
+   which it leaves unbounded; where they are exact, an out-of-range XSD integer is flagged *)
 Theorem C09_int_checkers_vs_xsd_ranges :
-  filter (fun d => is_int_dt d && negb (int_row_exact d)) all_dt = [DLong; DUnsignedLong].
-Proof. exact int_rows_exact. Qed.
+  filter (fun d => is_int_dt d && negb (int_row_exact d)) all_dt = [DLong; DUnsignedLong]
+  /\ (forall d l z norm, is_int_dt d = true -> int_row_exact d = true ->
+        xsd_int_lex l = Some z -> in_range (xsd_range d) z = false -> l_ill (construct d l norm) = Some true).
+Proof. split; [exact int_rows_exact|exact int_exact_flags]. Qed.
 Print Assumptions C09_int_checkers_vs_xsd_ranges.
+
+Theorem C09_int_construct_idempotent : forall d l, is_int_dt d = true ->
+  l_lex (construct d (l_lex (construct d l true)) true) = l_lex (construct d l true)
+  /\ l_val (construct d (l_lex (construct d l true)) true) = l_val (construct d l true).
+Proof. exact int_construct_idempotent. Qed.
+Print Assumptions C09_int_construct_idempotent.
+
+(* ---------------- boolean ---------------- *)
 
 Theorem C09_boolean_faithful :
   (forall b, parse_m DBoolean (fst (cast_python (VBool b))) = Some (VBool b)
@@ -93,15 +105,68 @@ Theorem C09_boolean_faithful :
 Proof. exact bool_faithful. Qed.
 Print Assumptions C09_boolean_faithful.
 
-(* plain, xsd:string, normalizedString, token: the value is the string offered, never flagged;
-   a valid normalizedString keeps its form (for token see C09_token_strip_refuted) *)
-Theorem C09_string_family_faithful_partial :
-  (forall d l norm, family_of d = FamStr ->
-     construct d l norm = {| l_lex := post d l; l_ill := (match d with DPlain => None | _ => Some false end);
-                             l_val := Some (VStr l) |})
-  /\ (forall l, xsd_value DNormalizedString l = Some (XStr l) -> post DNormalizedString l = l).
-Proof. split; [exact str_construct|exact normalized_string_valid_kept]. Qed.
-Print Assumptions C09_string_family_faithful_partial.
+(* ---------------- decimal ---------------- *)
+
+(* Decimal(f"{d:f}") for every Decimal of the model (any exponent, -0, Infinity, NaN): python reads back its own
+   output; what it reads prints the same again, and - for finite d - is numerically equal to d and identical to
+   d when the exponent is <= 0 *)
+Theorem C09_decimal_roundtrip :
+  (forall d, py_decimal (fformat d) = Some (dec_reparse d) /\ fformat (dec_reparse d) = fformat d
+             /\ dec_reparse (dec_reparse d) = dec_reparse d)
+  /\ (forall neg c e, dec_eqb (DFin neg c e) (dec_reparse (DFin neg c e)) = true
+                      /\ ((e <= 0)%Z -> dec_reparse (DFin neg c e) = DFin neg c e)).
+Proof.
+  split.
+  - intro d. split; [apply py_decimal_print|split; [apply fformat_reparse|apply dec_reparse_idem]].
+  - intros neg c e. split; [apply dec_eqb_reparse|apply dec_reparse_canonical].
+Qed.
+Print Assumptions C09_decimal_roundtrip.
+
+(* every form of the XSD decimal lexical space is read by Decimal() with the XSD value m / 10^s *)
+Theorem C09_decimal_valid_forms_read : forall l m s, xsd_dec_lex l = Some (m, s) ->
+  exists neg c, py_decimal l = Some (DFin neg c (- Z.of_nat s)) /\ zsign neg c = m.
+Proof. exact py_decimal_xsd. Qed.
+Print Assumptions C09_decimal_valid_forms_read.
+
+(* f"{d:f}" of a finite Decimal is in the XSD decimal lexical space and denotes coef * 10^exp *)
+Theorem C09_decimal_print_valid : forall neg c e,
+  xsd_value DDecimal (fformat (DFin neg c e)) =
+    Some (if (0 <=? e)%Z then XNum (zsign neg c * 10 ^ e) O else XNum (zsign neg c) (Z.to_nat (- e)))
+  /\ (forall xv, denote (VDec (DFin neg c e)) = Some xv -> lex_denotes DDecimal (fformat (DFin neg c e)) xv = true).
+Proof. intros neg c e. split; [apply xsd_print_fin|intros xv H; apply dec_print_denotes; exact H]. Qed.
+Print Assumptions C09_decimal_print_valid.
+
+(* the pipeline: a valid xsd:decimal form is accepted, not flagged, gets the XSD value; the normalised form is
+   valid with the same value; normalize() gives that form; re-reading it changes nothing; and construction-time
+   normalisation is idempotent for every form whatsoever *)
+Theorem C09_decimal_faithful :
+  (forall l xv norm, xsd_value DDecimal l = Some xv ->
+     exists neg c s, xv = XNum (zsign neg c) s /\
+       let d := DFin neg c (- Z.of_nat s) in
+       construct DDecimal l norm = {| l_lex := if norm then fformat d else l; l_ill := Some false; l_val := Some (VDec d) |}
+       /\ denotes (Some (VDec d)) xv = true
+       /\ xsd_value DDecimal (fformat d) = Some xv
+       /\ normalize_m DDecimal (construct DDecimal l norm) = {| l_lex := fformat d; l_ill := None; l_val := Some (VDec d) |}
+       /\ construct DDecimal (fformat d) true = {| l_lex := fformat d; l_ill := Some false; l_val := Some (VDec d) |})
+  /\ (forall l, l_lex (construct DDecimal (l_lex (construct DDecimal l true)) true) = l_lex (construct DDecimal l true)).
+Proof. split; [exact dec_pipeline|exact dec_construct_idempotent]. Qed.
+Print Assumptions C09_decimal_faithful.
+
+(* ---------------- plain, xsd:string, normalizedString, token ---------------- *)
+
+Theorem C09_string_family_faithful : forall d, family_of d = FamStr -> str_faithful d.
+Proof. exact str_faithful_all. Qed.
+Print Assumptions C09_string_family_faithful.
+
+(* token in particular: a valid token is kept, and whatever is offered the stored form is a valid token *)
+Theorem C09_token_faithful :
+  (forall l, xsd_token_ok l = true -> post DToken l = l)
+  /\ (forall s, xsd_token_ok (post DToken s) = true)
+  /\ (forall d s, post d (post d s) = post d s).
+Proof. split; [exact post_token_valid|split; [exact post_token_ok|exact post_idem]]. Qed.
+Print Assumptions C09_token_faithful.
+
+(* ---------------- normalisation ---------------- *)
 
 (* generic: from parse . print = id, normalisation is idempotent and keeps the value *)
 Theorem C09_normalize_idempotent : forall (V : Type) (parse : str -> option V) (print : V -> str),
@@ -111,90 +176,77 @@ Theorem C09_normalize_idempotent : forall (V : Type) (parse : str -> option V) (
 Proof. exact g_normalize_idempotent. Qed.
 Print Assumptions C09_normalize_idempotent.
 
-(* Literal.normalize() twice = once, for every modelled datatype (decimal included), every form, both flags *)
+(* Literal.normalize() twice = once, for every modelled datatype, every form, both flags *)
 Theorem C09_normalize_method_idempotent : forall d l norm,
   normalize_m d (normalize_m d (construct d l norm)) = normalize_m d (construct d l norm).
 Proof. exact normalize_m_idempotent. Qed.
 Print Assumptions C09_normalize_method_idempotent.
 
-(* re-reading a normalised literal of an integer datatype changes nothing - for EVERY form, valid or not *)
-Theorem C09_int_construct_idempotent : forall d l, is_int_dt d = true ->
-  l_lex (construct d (l_lex (construct d l true)) true) = l_lex (construct d l true)
-  /\ l_val (construct d (l_lex (construct d l true)) true) = l_val (construct d l true).
-Proof. exact int_construct_idempotent. Qed.
-Print Assumptions C09_int_construct_idempotent.
+(* ---------------- eq ---------------- *)
 
-(* eq agrees with equality in the value space, across the integer datatypes, and is implied by term equality *)
-Theorem C09_eq_vs_value_partial : forall d1 d2 l1 l2 z1 z2 n1 n2,
-  is_int_dt d1 = true -> is_int_dt d2 = true ->
-  xsd_value d1 l1 = Some (XNum z1 O) -> xsd_value d2 l2 = Some (XNum z2 O) ->
-  eq_m d1 (construct d1 l1 n1) d2 (construct d2 l2 n2) = eqres_of (z1 =? z2)%Z
-  /\ (d1 = d2 -> term_eq d1 (construct d1 l1 n1) d2 (construct d2 l2 n2) = true ->
-      eq_m d1 (construct d1 l1 n1) d2 (construct d2 l2 n2) = ETrue).
+(* for literals of any two modelled datatypes built from valid forms whose value spaces XSD relates (numeric
+   types among each other, a type with itself, plain with xsd:string): eq = equality of the XSD values;
+   and whenever two literals are the same term, eq is True (decimals: built from valid forms) *)
+Theorem C09_eq_vs_value :
+  (forall d1 l1 n1 d2 l2 n2 x1 x2,
+     xsd_value d1 l1 = Some x1 -> xsd_value d2 l2 = Some x2 -> comparable d1 d2 = true ->
+     eq_m d1 (construct d1 l1 n1) d2 (construct d2 l2 n2) = eqres_of (xval_eqb x1 x2))
+  /\ (forall d1 l1 n1 d2 l2 n2,
+       term_eq d1 (construct d1 l1 n1) d2 (construct d2 l2 n2) = true ->
+       eq_scope d1 l1 = true -> eq_scope d2 l2 = true ->
+       eq_m d1 (construct d1 l1 n1) d2 (construct d2 l2 n2) = ETrue).
 Proof.
-  intros d1 d2 l1 l2 z1 z2 n1 n2 H1 H2 V1 V2. split.
-  - apply int_eq_vs_value; assumption.
-  - intros E T. subst d2. eapply int_same_implies_eq; eassumption.
+  split; [exact ceq_value|].
+  intros d1 l1 n1 d2 l2 n2 T S1 S2. unfold term_eq in T. apply andb_true_iff in T. destruct T as [Td Tl].
+  apply dt_eqb_eq in Td. subst d2. apply ceq_same; assumption.
 Qed.
-Print Assumptions C09_eq_vs_value_partial.
+Print Assumptions C09_eq_vs_value.
 
-(* what the correspondence check evaluates on the implementation's answers is satisfied by the model:
-   proved for the integer datatypes and the conformance-only cases (wf_core); the boolean, string-family,
-   decimal, python-value and pair cases are tied by the run (bit 8 of the check) *)
-Theorem C09_spec_ok_model_partial : forall c, wf_core c = true -> kf c = 0%N -> spec_ok c (model_obs c) = true.
-Proof. exact spec_ok_model_core. Qed.
-Print Assumptions C09_spec_ok_model_partial.
+(* ---------------- the tie ---------------- *)
+
+(* what the correspondence check evaluates on the implementation's answers is satisfied by the model on every
+   case: lexical forms of every modelled datatype, python values (wf excludes only the placeholder VOther),
+   pairs, conformance-only cases; kf = 0 excludes Decimal NaN/Infinity values (F14b) and the conformance regions
+   of F14f / F14g *)
+Theorem C09_spec_ok_model : forall c, wf c = true -> kf c = 0%N -> spec_ok c (model_obs c) = true.
+Proof. exact spec_ok_model. Qed.
+Print Assumptions C09_spec_ok_model.
 
 (* readings of the checker *)
 Theorem C09_spec_valid_form_reading : forall d l norm x n1 n2 re e same xv,
   spec_ok (CLex d l norm) (OLex x n1 n2 re e same) = true -> xsd_value d l = Some xv ->
   ill_ok d (l_ill x) false = true /\ denotes (l_val x) xv = true /\ lex_denotes d (l_lex x) xv = true
+  /\ (norm = false -> l_lex x = l)
   /\ denotes (l_val n1) xv = true /\ lex_denotes d (l_lex n1) xv = true
+  /\ denotes (l_val re) xv = true /\ lex_denotes d (l_lex re) xv = true
   /\ l_lex n2 = l_lex n1 /\ (norm = true -> l_lex re = l_lex x) /\ e = ETrue.
 Proof. exact spec_ok_lex_valid_reading. Qed.
 Print Assumptions C09_spec_valid_form_reading.
 
-Theorem C09_spec_invalid_form_reading : forall d l norm x n1 n2 re e same,
-  spec_ok (CLex d l norm) (OLex x n1 n2 re e same) = true -> xsd_value d l = None ->
-  ill_ok d (l_ill x) true = true /\ l_lex n2 = l_lex n1 /\ (same = true -> e = ETrue).
-Proof. exact spec_ok_lex_invalid_reading. Qed.
-Print Assumptions C09_spec_invalid_form_reading.
+Theorem C09_spec_any_form_reading : forall d l norm x n1 n2 re e same,
+  spec_ok (CLex d l norm) (OLex x n1 n2 re e same) = true ->
+  l_lex n2 = l_lex n1 /\ (norm = true -> l_lex re = l_lex x)
+  /\ (same = true -> eq_scope d l = true -> e = ETrue).
+Proof. exact spec_ok_lex_any_reading. Qed.
+Print Assumptions C09_spec_any_form_reading.
+
+Theorem C09_spec_python_value_reading : forall v dr x back e xv,
+  spec_ok (CPy v) (OPy dr x back e) = true -> denote v = Some xv ->
+  let d := match dr with RDt d => d | _ => DPlain end in
+  dtres_eqb dr (documented_dt v) = true /\ lex_denotes d (l_lex x) xv = true
+  /\ denotes (l_val back) xv = true /\ ill_ok d (l_ill back) false = true /\ l_lex back = l_lex x /\ e = ETrue.
+Proof. exact spec_ok_py_reading. Qed.
+Print Assumptions C09_spec_python_value_reading.
 
 Theorem C09_spec_eq_reading : forall d1 l1 n1 d2 l2 n2 same e x1 x2,
   spec_ok (CEq d1 l1 n1 d2 l2 n2) (OEq same e) = true ->
-  (same = true -> e = ETrue)
+  (same = true -> eq_scope d1 l1 = true -> eq_scope d2 l2 = true -> e = ETrue)
   /\ (xsd_value d1 l1 = Some x1 -> xsd_value d2 l2 = Some x2 -> comparable d1 d2 = true ->
       e = eqres_of (xval_eqb x1 x2)).
 Proof. exact spec_ok_eq_reading. Qed.
 Print Assumptions C09_spec_eq_reading.
 
-(* ---- the full statement fails for the code as it is ---- *)
-
-(* F14c: "1_0" is outside the lexical space of xsd:integer, yet accepted unflagged with value 10 *)
-Theorem C09_overaccept_refuted : exists d l,
-  xsd_value d l = None /\ l_ill (construct d l true) = Some false /\ l_val (construct d l true) = Some (VInt 10).
-Proof. exact overaccept_refuted. Qed.
-Print Assumptions C09_overaccept_refuted.
-
-(* F14c: 9223372036854775808 is accepted as an xsd:long *)
-Theorem C09_long_range_refuted : exists l,
-  xsd_value DLong l = None /\ xsd_value DInteger l <> None /\ l_ill (construct DLong l true) = Some false.
-Proof. exact long_range_refuted. Qed.
-Print Assumptions C09_long_range_refuted.
-
-(* F14d: a valid token (NBSP x) is stored as another token (x) *)
-Theorem C09_token_strip_refuted : exists l,
-  xsd_value DToken l = Some (XStr l)
-  /\ xsd_value DToken (l_lex (construct DToken l false)) <> Some (XStr l).
-Proof. exact token_strip_refuted. Qed.
-Print Assumptions C09_token_strip_refuted.
-
-(* F14d: equal terms whose eq is False *)
-Theorem C09_same_not_eq_refuted : exists d l1 l2,
-  term_eq d (construct d l1 true) d (construct d l2 true) = true
-  /\ eq_m d (construct d l1 true) d (construct d l2 true) = EFalse.
-Proof. exact same_not_eq_refuted. Qed.
-Print Assumptions C09_same_not_eq_refuted.
+(* ---------------- the code as it is ---------------- *)
 
 (* F14b: Decimal('NaN') becomes "NaN"^^xsd:decimal, which is not in the lexical space *)
 Theorem C09_decimal_nan_refuted :
@@ -203,12 +255,29 @@ Theorem C09_decimal_nan_refuted :
 Proof. exact decimal_nan_refuted. Qed.
 Print Assumptions C09_decimal_nan_refuted.
 
-(* non-vacuity: a valid non-canonical byte is in scope (no trigger), and the checker rejects a wrong answer *)
+(* not demanded by the property (it constrains valid forms only), recorded as documentation: forms outside the
+   lexical space that the code accepts without the ill-typed flag *)
+Theorem C09_invalid_forms_accepted_examples :
+  (xsd_value DInteger [49; 95; 48]%N = None /\ l_ill (construct DInteger [49; 95; 48]%N true) = Some false)
+  /\ (let l := [57; 50; 50; 51; 51; 55; 50; 48; 51; 54; 56; 53; 52; 55; 55; 53; 56; 48; 56]%N in
+      xsd_value DLong l = None /\ l_ill (construct DLong l true) = Some false)
+  /\ (xsd_value DDecimal [49; 101; 53]%N = None
+      /\ l_lex (construct DDecimal [49; 101; 53]%N true) = [49; 48; 48; 48; 48; 48]%N).
+Proof. exact invalid_forms_accepted_examples. Qed.
+Print Assumptions C09_invalid_forms_accepted_examples.
+
+(* non-vacuity: valid non-canonical forms are in scope, the checker rejects wrong answers *)
 Example C09_nonvacuous :
   let l := [43; 48; 49; 50; 55]%N in     (* "+0127" *)
   let c := CLex DByte l true in
-  wf_core c = true /\ kf c = 0%N /\ xsd_value DByte l = Some (XNum 127 O)
+  let t := [160; 120]%N in               (* NBSP x: a valid token *)
+  let dl := [45; 46; 53; 48]%N in        (* "-.50" *)
+  wf c = true /\ kf c = 0%N /\ xsd_value DByte l = Some (XNum 127 O)
   /\ l_lex (construct DByte l true) = [49; 50; 55]%N
   /\ spec_ok c (model_obs c) = true
-  /\ spec_ok c (model_obs (CLex DByte [49; 50; 56]%N true)) = false.
+  /\ spec_ok c (model_obs (CLex DByte [49; 50; 56]%N true)) = false
+  /\ xsd_value DToken t = Some (XStr t) /\ l_lex (construct DToken t true) = t
+  /\ xsd_value DDecimal dl = Some (XNum (-50) 2)
+  /\ l_lex (construct DDecimal dl true) = [45; 48; 46; 53; 48]%N
+  /\ spec_ok (CLex DDecimal dl true) (model_obs (CLex DDecimal [45; 46; 53; 49]%N true)) = false.
 Proof. vm_compute. repeat split. Qed.
